@@ -145,13 +145,17 @@ CHECKS.update({
             "dimension bookkeeping (_restore_dim_order = stable sort by position in the object: permutation, ordered, stable) and K2 ties that model to the function; the check "
             "compares xarray_reduce with native groupby on generated DataArrays/Datasets (1-4 dims in any order, 1-D/2-D/external/several groupers, dim None/subset/..., skipna, "
             "chunked, mixed-dims Datasets): values, dim order, coords, names, attrs; pass-through variables vs the input.",
-            NOTE_COMMON + "Known findings KF06/KF07 are reported as KNOWN-FINDING. Everything beyond _restore_dim_order rests on differential testing against xarray.",
+            NOTE_COMMON + "Known findings KF06/KF07/KF08 are reported as KNOWN-FINDING. Everything beyond _restore_dim_order rests on differential testing against xarray.",
             "differential testing against native xarray + Coq proof of the dim-order restoration", "5 C15"),
     "C19": ("proof",
             "The real entry point is evaluated on the finite configuration grid (29 reductions x 5 engines x 4 methods x 3 reindex x label kind/ndim x axis x expected x "
             "layout) on every run; the outcome table is emitted as a Coq term and checked by grid_ok, PROVED sound: every refusal is one of the clean classes at call time, "
-            "method=None is accepted wherever map-reduce is and gives the same values, no cell dies with an internal error.",
-            NOTE_COMMON + "Quick samples the grid (all cells of 4 reductions x 3 engines + random); thorough enumerates it; the table is an observation of the running code.",
+            "method=None is accepted wherever map-reduce is and gives the same values, no cell dies with an internal error. The decision functions _choose_method "
+            "and _validate_reindex are tabulated from the running code on their WHOLE abstracted domain (T2) and Coq proves the rules that make the automatic "
+            "choices safe (explicit requests kept or refused for documented reasons with clean classes; partial-axis reductions -> map-reduce; arg reductions never "
+            "blockwise; block-stage reindexing only when the groups are known up front).",
+            NOTE_COMMON + "Quick samples the grid (all cells of 4 reductions x 3 engines + random); thorough enumerates it; the tables are observations of the running code "
+            "(the two decision tables are exhaustive over their abstracted domains, coverage is itself a checked lemma).",
             "Coq-checked outcome table over an enumerated configuration grid", "5 C19"),
     "C20": ("proof",
             "Coq theorems: +-inf are data (max/min of a NaN-free group containing +inf/-inf is that infinity, also through the engine='flox' NaN-substitution wrapper); integer "
